@@ -725,6 +725,17 @@ def observe(cfg, want):
             inner = interior(c.phi_full)
             v = P.CellVariable(c.m, inner.copy(), c.bc)
             obs["f_ctor"] = lift.lift_array(np.asarray(v._value))[0]
+            # the same interior field in other admissible array forms: integer-typed, Fortran-ordered, strided view
+            forms = {"int": inner.astype(np.int64), "fortran": np.asfortranarray(inner.copy()),
+                     "strided": np.repeat(inner, 2, axis=0)[::2]}
+            obs["f_ctor_forms"] = {}
+            for nm, arr in forms.items():
+                vf = P.CellVariable(c.m, arr, make_bc(c.m, cfg["bc"], d))
+                obs["f_ctor_forms"][nm] = lift.lift_array(np.asarray(vf._value))[0]
+                if nm == "int":
+                    vf.value = arr
+                    vf.apply_BCs()
+                    obs["f_ctor_forms"]["int_apply"] = lift.lift_array(np.asarray(vf._value))[0]
             v2 = P.CellVariable(c.m, 0.0, make_bc(c.m, cfg["bc"], d))
             v2.value = inner
             v2.apply_BCs()
